@@ -141,9 +141,37 @@ func genC10Dump(t *rapid.T) C10Case {
 	return C10Case{Ops: ops}
 }
 
+// genC10Lang: translation-focused sequences — one translatable type, one or two keys,
+// three values (the empty one among them, so that a translation often equals the default
+// entry or is empty), frequent language switches.
+func genC10Lang(t *rapid.T) C10Case {
+	typ := dbTypes[1+uniformN(t, 3, "typ")]
+	ops := []C10Op{{Kind: "prefix", Typ: typ}, {Kind: "lock", Typ: safeLock, Locked: false}}
+	keys := []string{"foo", "foo_menu"}[:1+uniformN(t, 2, "nkeys")]
+	vals := []string{"", "hello", "good day"}
+	langKind := []string{"lang", "lang", "ctxlang"}
+	n := 6 + uniformN(t, 25, "nops")
+	for i := 0; i < n; i++ {
+		switch k := uniformN(t, 20, "kind"); {
+		case k < 7:
+			ops = append(ops, C10Op{Kind: langKind[uniformN(t, 3, "langkind")], Lang: []string{"", "nor", "eng"}[uniformN(t, 3, "lang")]})
+		case k < 13:
+			ops = append(ops, C10Op{Kind: "put", Key: BS(keys[uniformN(t, len(keys), "key")]), Val: BS(vals[uniformN(t, 3, "val")])})
+		case k < 19:
+			ops = append(ops, C10Op{Kind: "get", Key: BS(keys[uniformN(t, len(keys), "key")])})
+		default:
+			ops = append(ops, C10Op{Kind: "reopen"})
+		}
+	}
+	return C10Case{Ops: ops}
+}
+
 func genC10(t *rapid.T) C10Case {
-	if chancePct(t, 40, "dumpfocus") {
+	switch k := uniformN(t, 20, "focus"); {
+	case k < 7:
 		return genC10Dump(t)
+	case k < 11:
+		return genC10Lang(t)
 	}
 	ops := genSlice(t, genC10Op, 1, 40, "ops")
 	// start in a writable, typed state most of the time
